@@ -5,6 +5,7 @@ pub mod bddsweep;
 pub mod bddmid;
 pub mod sddmid;
 pub mod wide;
+pub mod longcnf;
 pub mod c01;
 pub mod c02;
 pub mod c03;
